@@ -127,9 +127,12 @@ def check(pid, tier, seed):
     findings = Findings()
     records, info = [], {"checker_cmds": []}
     undecided_reason = None
+    # development aid for trying seeded changes quickly (scratch copies only; the registered checks always run both back ends)
+    only = os.environ.get("VERIF_ONLY") if REPO != "/repo" else None
     try:
-        run_kani(pid, tier, records, info)
-        if verus_run:
+        if only != "verus":
+            run_kani(pid, tier, records, info)
+        if verus_run and only != "kani":
             verus_run.run(pid, tier, records, info)
     except Undecided as u:
         undecided_reason = str(u)
